@@ -5,7 +5,13 @@ mmap/munmap/mprotect/ftruncate/shm_open/open/close/unlink/syscall(memfd_create) 
 k-th arena / heap / virtual-memory request failing, for every k ("single") and with every request from k on failing
 ("sticky"), plus random multi-failure patterns. This module shards the k ranges over child processes, attributes a
 sanitizer abort to the case announced by the child's last "@case" marker, confirms it by re-running that case alone,
-symbolises request sites and merges the evidence."""
+symbolises request sites and merges the evidence.
+
+Beyond "error or identical output, then reset + identical retry, then balanced destruction" the drivers judge: callers that
+drop a refused call and CARRY ON with the same objects (W7 emits; W1c/W2c/W3c every kind of assembling / building / compiling
+call, against a reference run that omits exactly those calls; W5c a ConstPool against a model; W8 strings against a model),
+WHO reports (the first thing a caller is told must not be a foreign error from a later call), and HOW resources are released
+(munmap length / result, no second close / unlink)."""
 import json
 import os
 import re
@@ -16,8 +22,9 @@ from vlib import build, common
 WRAPS = ["malloc", "realloc", "calloc", "free", "mmap", "munmap", "mprotect", "ftruncate64", "shm_open", "shm_unlink",
          "open64", "unlink", "close", "syscall"]
 
-WORKLOADS = ["W1x64", "W1x86", "W1a64", "W1r", "W2fin", "W2ser", "W3x64", "W3x86", "W3a64", "W3x64log", "W3a64log",
-             "W4", "W4dual", "W4multi", "W4dualfill", "W4nomemfd", "W4far", "W4fardual", "W5", "W5big", "W5s", "W6", "W7asm", "W7bld", "W7cc", "W8", "W9"]
+WORKLOADS = ["W1x64", "W1x86", "W1a64", "W1r", "W1c", "W2c", "W3c", "W5c", "W2fin", "W2ser", "W3x64", "W3x86", "W3a64", "W3x64log", "W3a64log",
+             "W4", "W4dual", "W4multi", "W4dualfill", "W4nomemfd", "W4far", "W4fardual", "W4large", "W4largefill", "W4largefb",
+             "W1rst", "W1cst", "W5sst", "W5", "W5big", "W5s", "W6", "W7asm", "W7bld", "W7cc", "W8", "W9"]
 COLD = ["W4", "W4dual", "W4nomemfd"]          # vm class additionally with NOTHING warmed up (one case per process)
 CLASSES = ["arena", "heap", "vm"]
 
@@ -86,7 +93,17 @@ def short_fn(fn):
     return s or fn[:60]
 
 
-HARNESS_FRAMES = ("fault_point", "walk_frames", "arena_fail_hook", "__wrap_")
+HARNESS_FRAMES = ("fault_point", "walk_frames", "arena_fail_hook", "__wrap_", "vm_defect", "name_release")
+
+# continue recovery (W1c / W2c): kinds of calls that must have been refused at least once (bind never allocates)
+CONT_KINDS = ("new_section", "new_label", "new_named_label", "new_named_label_again", "section", "align", "embed", "embed_label", "embed_label_delta",
+              "embed_data_array", "comment", "emit", "emit_with_label_operand", "emit_with_absolute_target",
+              "compiler_new_reg", "compiler_new_stack", "compiler_invoke", "compiler_emit")
+# register-allocator code that only special function shapes reach (immediate / by-reference invoke arguments, st0 returns,
+# register lists): a refused request must have been injected with each of these functions on its call chain
+RA_TARGETS = ("x86::RACFGBuilder::move_imm_to_reg_arg", "x86::RACFGBuilder::move_imm_to_stack_arg", "x86::RACFGBuilder::move_vec_to_ptr",
+              "x86::RACFGBuilder::on_before_ret", "a64::RACFGBuilder::move_imm_to_reg_arg", "a64::RACFGBuilder::move_imm_to_stack_arg",
+              "RAWorkReg::add_immediate_consecutive")
 
 
 def _is_harness(fn, loc):
@@ -119,7 +136,8 @@ def site_function(sym, pcs):
 
 
 CRASH_GENERIC = re.compile(r"^(ArenaTree::|ArenaVector::|ArenaVectorBase::|ArenaHashBase::|ArenaHash::|operator|Support::|loadu|storeu|"
-                           r"__|mem|std::|ConstPool::Tree::|Arena::ManagedBlock::|lower_bound|CodeWriterUtils::|Section::|LabelEntry::|CodeHolder_add_text_section)")
+                           r"__|mem|std::|ConstPool::Tree::|Arena::ManagedBlock::|lower_bound|CodeWriterUtils::|Section::|LabelEntry::|CodeHolder_add_text_section|"
+                           r"CodeHolder::section_by_id|rewrite_iterate)")
 
 
 def crash_function(sym, rep):
@@ -152,6 +170,19 @@ def api_function(sym, pcs):
     return last or (names[0][0] if names else "?")
 
 
+def release_function(sym, pcs):
+    """Wrong munmap / close / unlink: the asmjit function that made the release call (VirtMem's own helpers skipped)."""
+    names = chain_of(sym, pcs)
+    first = None
+    for fn, loc in names:
+        if _is_harness(fn, loc):
+            break
+        first = first or fn
+        if not GENERIC.match(fn) and not fn.startswith("VirtMem::") and "AnonymousMemory" not in fn:
+            return fn
+    return first or "?"
+
+
 def site_chain(sym, pcs):
     out = []
     for fn, loc in chain_of(sym, pcs):
@@ -169,7 +200,7 @@ def site_chain(sym, pcs):
 # as instruction indices. Anything else stays a violation.
 
 BASES = {"x64": 0x00007F3300010000, "x86": 0x08040000, "a64": 0x00007F3300010000}
-FUNC_LABELS = ("f1", "f1v", "f2", "f3", "f4", "g1", "g2", "g3")
+FUNC_LABELS = ("f1", "f1v", "f2", "f3", "f4", "f5", "f6", "f6f", "f7", "f8", "fc", "g1", "g2", "g3", "g4")
 
 
 def _parse_main(main):
@@ -252,7 +283,10 @@ def _normalise(arch, insts, seg_lo, seg_hi):
             t = t.split(",")[0] + ",FRAME"
         refs.append(stk.findall(t))
         texts.append(stk.sub("[STK]", t))
-    return texts, refs
+    return texts, refs, code_end
+
+
+TAILS = {"compared": 0, "bytes": 0, "different_code_length": 0}
 
 
 def same_code_up_to_stack_layout(arch, main_a, main_b):
@@ -274,6 +308,20 @@ def same_code_up_to_stack_layout(arch, main_a, main_b):
             nb = _normalise(arch, db, base + lab_b[n], base + hi_b)
             if na is None or nb is None or na[0] != nb[0]:
                 return False
+            # what follows the last return (local constant pool, jump table) is data the instructions above address: when the
+            # code has the same length in both images it must be the same bytes (a changed constant / table entry is wrong code)
+            ta = img_a[na[2] - base:hi_a]
+            tb = img_b[nb[2] - base:hi_b]
+            if arch != "a64":
+                # (alignment padding in front of / behind the data depends on the length of the functions above: int3)
+                ta, tb = ta.strip(b"\xcc"), tb.strip(b"\xcc")
+            if (na[2] - base - lab_a[n]) == (nb[2] - base - lab_b[n]):
+                TAILS["compared"] += 1
+                TAILS["bytes"] += len(ta)
+                if ta != tb:
+                    return False
+            else:
+                TAILS["different_code_length"] += 1
             fwd, bwd, ctx = {}, {}, 0
             for text, ra, rb in zip(na[0], na[1], nb[1]):
                 if len(ra) != len(rb):
@@ -290,7 +338,7 @@ def same_code_up_to_stack_layout(arch, main_a, main_b):
 
 
 def arch_of(w):
-    return "x64" if w.startswith("W3x64") else "x86" if w.startswith("W3x86") else "a64" if w.startswith("W3a64") else None
+    return "x64" if w.startswith("W3x64") or w == "W3c" else "x86" if w.startswith("W3x86") else "a64" if w.startswith("W3a64") else None
 
 
 # -- child handling -----------------------------------------------------------------------------------------
@@ -646,22 +694,25 @@ def run(tier, args):
     seen_kcg = set()
     for _, _, res, v in flat:
         if True:
-            if v["kind"] == "silent-wrong-output" and v.get("got_main") and arch_of(res["workload"]):
+            if v["kind"] in ("silent-wrong-output", "wrong-code-after-refused-call") and v.get("got_main") and arch_of(res["workload"]):
                 if same_code_up_to_stack_layout(arch_of(res["workload"]), v["got_main"], v["clean_main"]):
                     equivalent_layouts += 1      # "completes correctly": spill slots were created in another order
                     continue
             fn = site_function(R.sym, v["site"]) if any(v["site"]) else "?"
             kcg = (v["kind"], v["class"], group_of(res["workload"]))
-            if v.get("api"):
-                # the workload names the call whose post-condition failed (W8): that, not the first refused request, is the call site
+            if v.get("api") and not (v.get("api_first_kind") and v["mode"] != "single"):
+                # the workload names the call whose post-condition failed (W8) / the one call that was refused (W1c, single failure):
+                # that, not the first refused request, is the call site
                 key = "%s:%s:%s:%s" % (v["api"], v["kind"], v["class"], group_of(res["workload"]))
-            elif v["mode"] in ("pattern", "sticky"):
+            elif v["mode"] in ("pattern", "sticky") or v.get("api_first_kind"):
                 # several failures: the first failed request says little about the cause; one key per (kind, class, group),
                 # and only when no single-failure witness of the same kind exists there
                 if kcg in seen_kcg:
                     continue
                 key = "multi-failure:%s:%s:%s" % kcg
-            elif v["kind"] in ("wrong-code-after-refused-call", "one-shot-state-survives-refused-emit"):
+            elif v["kind"] == "wrong-release-call":
+                key = "%s:%s:%s:%s" % (release_function(R.sym, v["site"]), v["kind"], v["class"], group_of(res["workload"]))
+            elif v["kind"] in ("wrong-code-after-refused-call", "one-shot-state-survives-refused-emit", "refused-call-left-state-behind"):
                 # the emitter method in progress (vaddps, mov, ...) says nothing: name the function whose failure path is at fault
                 key = "%s:%s:%s:%s" % (fn, v["kind"], v["class"], group_of(res["workload"]))
             else:
@@ -679,12 +730,16 @@ def run(tier, args):
             chk.violation(key, what, None if args.replay else {"argv": argv})
 
     # ---- 5. evidence ----------------------------------------------------------------------------------------------
-    tot = {k: 0 for k in ("cases", "fired_cases", "reported", "tolerated", "not_fired", "retry_ok", "requests_failed", "continue_ok", "emits_refused")}
+    tot = {k: 0 for k in ("cases", "fired_cases", "reported", "tolerated", "not_fired", "retry_ok", "requests_failed", "continue_ok", "emits_refused",
+                          "hugetlb_mmaps", "reinit_compiler_rounds_after_failure", "first_report_after_the_refusing_call_returned",
+                          "static_arena_cases", "static_arena_cases_grown")}
     per = {}
     failing_sites = {}
     request_sites = set()
     errors = {}
     strmodel = {}
+    cont, constpool, vm_releases = {}, {}, 0
+    ra_targets = {t: 0 for t in RA_TARGETS}
     ctors = {}      # (workload, constructor) -> {"requests": [per class], "fired": [...], "fired_first": [...]}
     ctor_cases = {c: {"cases_first_refused_request_inside_a_constructor": 0, "of_which_the_first_request_of_that_constructor": 0} for c in CLASSES}
     for res in R.results:
@@ -705,6 +760,9 @@ def run(tier, args):
             for k in tot:
                 tot[k] += res.get(k, 0)
             _merge_counts(strmodel, res.get("strmodel", {}))
+            _merge_counts(cont, {w: res["cont"]} if res.get("cont") else {})
+            _merge_counts(constpool, res.get("constpool", {}))
+            vm_releases += res.get("vm_releases_checked", 0)
             d = per.setdefault(w, {}).setdefault(cls, {})
             d[mode] = d.get(mode, 0) + res["cases"] + res.get("workers_killed", 0)
             for e, n in res.get("errors", {}).items():
@@ -714,6 +772,10 @@ def run(tier, args):
             chain = tuple(p for p in s["pc"] if p and not R.sym.cache.get(p, [("??", "??")])[0][0].startswith(HARNESS_FRAMES))
             fn = site_function(R.sym, s["pc"])
             if s["f"]:
+                on_chain = {f for f, _ in R.sym.frames(s["pc"])}
+                for t in RA_TARGETS:
+                    if t in on_chain:
+                        ra_targets[t] += s["n"]
                 key = (group_of(w), cname, fn, chain[0] if chain else 0)
                 ent = failing_sites.setdefault(key, {"n": 0, "workloads": set(), "chain": site_chain(R.sym, s["pc"])})
                 ent["n"] += s["n"]
@@ -724,6 +786,29 @@ def run(tier, args):
         gaps = ctor_first_request_gaps(ctors)
         if gaps:
             raise common.HarnessError("the enumeration never refused the first request of: " + ", ".join(gaps))
+        # every added dimension must have observed something
+        seen_kinds = set()
+        for w, d in cont.items():
+            seen_kinds.update(k for k, n in d.get("refused_by_kind", {}).items() if n)
+        missing = [k for k in CONT_KINDS if k not in seen_kinds]
+        idle = [w for w in ("W1c", "W2c", "W3c") if not cont.get(w, {}).get("cases_with_refused_call")]
+        if missing or idle or not tot["continue_ok"]:
+            raise common.HarnessError("continue recovery (W1c/W2c): no call of kind %s was ever refused and skipped; workloads without a refused call: %s "
+                                      "(cases compared with their reference: %d)" % (missing, idle, tot["continue_ok"]))
+        for k in ("refused", "refused_with_padding_pending", "refused_with_gaps_registered", "adds_after_refused", "retries_of_refused", "checks"):
+            if not constpool.get(k):
+                raise common.HarnessError("ConstPool model (W5c): counter %s is zero" % k)
+        if not vm_releases:
+            raise common.HarnessError("no munmap / close / unlink of a tracked mapping, descriptor or name was checked")
+        unreached = [t for t, n in ra_targets.items() if not n]
+        if unreached:
+            raise common.HarnessError("no refused request had %s on its call chain" % unreached)
+        if not tot.get("hugetlb_mmaps"):
+            raise common.HarnessError("no mmap(MAP_HUGETLB) request was seen: the large-page workloads did not reach VirtMem's large-page path")
+        if not tot.get("static_arena_cases_grown"):
+            raise common.HarnessError("no armed case ran on an arena that starts in static memory and grew behind it")
+        if not tot.get("reinit_compiler_rounds_after_failure"):
+            raise common.HarnessError("W1r never compiled a function with the Compiler after a refused request")
     distinct_fn = {(g, c, fn) for (g, c, fn, pc) in failing_sites}
     by_class = {}
     for (g, c, fn) in distinct_fn:
@@ -754,6 +839,7 @@ def run(tier, args):
         "cases_failure_tolerated_output_identical": tot["tolerated"],
         "cases_pattern_not_reached": tot["not_fired"],
         "cases_different_bytes_same_code_up_to_spill_slot_placement": equivalent_layouts,
+        "data_behind_the_last_return_compared_bytewise_in_those_cases": dict(TAILS),
         "retries_identical_to_failure_free": tot["retry_ok"],
         "continue_mode_emit_calls_refused_and_skipped": tot["emits_refused"],
         "continue_mode_cases_identical_to_reference_without_the_refused_calls": tot["continue_ok"],
@@ -761,6 +847,28 @@ def run(tier, args):
         "first_error_codes_reported": errors,
         "cases_killed_by_sanitizer": len(R.crashes),
         "string_model_workload_W8": strmodel_evidence(strmodel, counts),
+        "continue_recovery_every_call_kind_W1c_W2c": {
+            "cases_with_a_refused_call": {w: d.get("cases_with_refused_call", 0) for w, d in cont.items()},
+            "calls_made_after_a_refused_call_same_objects": {w: d.get("calls_after_refused", 0) for w, d in cont.items()},
+            "refused_and_skipped_calls_by_kind": {w: d.get("refused_by_kind", {}) for w, d in cont.items()},
+        },
+        "constpool_model_W5c": {
+            "add_calls": constpool.get("adds", 0),
+            "refused_adds": constpool.get("refused", 0),
+            "refused_adds_with_alignment_padding_pending": constpool.get("refused_with_padding_pending", 0),
+            "refused_adds_with_gap_records_registered": constpool.get("refused_with_gaps_registered", 0),
+            "adds_into_the_same_pool_after_a_refused_add": constpool.get("adds_after_refused", 0),
+            "refused_constants_added_again": constpool.get("retries_of_refused", 0),
+            "consistency_checks_fill_bounds_alignment": constpool.get("checks", 0),
+            "pool_resets_with_the_arena_kept": constpool.get("pool_resets", 0),
+        },
+        "vm_release_calls_checked_length_result_repetition": vm_releases,
+        "mmap_MAP_HUGETLB_requests_seen": tot["hugetlb_mmaps"],
+        "armed_cases_on_an_arena_that_starts_in_static_memory": tot["static_arena_cases"],
+        "of_which_had_heap_blocks_chained_behind_the_static_block": tot["static_arena_cases_grown"],
+        "functions_compiled_in_W1r_after_a_refused_request_reinit_with_compiler": tot["reinit_compiler_rounds_after_failure"],
+        "cases_first_report_came_from_a_later_call_than_the_refusing_one": tot["first_report_after_the_refusing_call_returned"],
+        "refused_requests_below_register_allocator_special_paths": ra_targets,
         "constructors": dict(ctor_evidence(ctors), cases_per_class=ctor_cases),
         "child_processes": R.children,
         "exhaustive": False,
@@ -781,6 +889,31 @@ def run(tier, args):
         "W7 (continue recovery): an emit call that returns kOutOfMemory is skipped and the same emitter is used on; phase-1 output must equal "
         "a failure-free run on fresh objects that omits exactly those calls; after every refused emit inst_options()==kNone, no extra "
         "register and no inline comment may remain (Assembler, Builder, Compiler; x86-64)",
+        "W1c / W2c (continue recovery for every kind of call, x86-64 Assembler / Builder+finalize; W1cst: holder over 2 KiB of static arena memory): "
+        "a call refused with kOutOfMemory (new_section, new_label, new_named_label, section, align, embed, embed_label, embed_label_delta, "
+        "embed_data_array, comment, emits with label / absolute-address operands) is dropped, the caller carries on with the same objects; the "
+        "image, label offsets, section layout - or the error flatten / resolve_cross_section_fixups / relocate_to_base / copy_flattened_data return "
+        "without a refused request inside them - must equal a failure-free run on fresh objects that omits exactly the refused calls; a refused "
+        "new_named_label must not resolve by name to an id the holder does not have and is made again. Not judged: refusals of composite calls",
+        "W3c: the same continue recovery for an x86-64 Compiler function (virtual registers, a stack area, labels, an invoke with register / "
+        "immediate / stack arguments, instructions): what was refused is dropped with what needs it, finalize() runs with memory available, the "
+        "image must equal the reference without those calls (or decode to the same code up to spill-slot placement); constants are not part of it",
+        "W5c (ConstPool against a model, continue recovery): mixed sizes 1..64, equal and shared constants, two pool epochs over one arena; after a "
+        "refused add() the caller goes on with the same pool (gives the constant up / adds it again / adds constants that fit the padding first / "
+        "adds two of the padding's size afterwards); judged whether or not an error was reported: every accepted constant aligned, inside "
+        "[0, size()), reproduced by fill(), fill() writes nothing behind size(), alignment() >= largest accepted constant. W5 judges its pool the same way",
+        "who reports: when every request refused so far was refused in a call that has since returned, and the first thing the caller is told "
+        "(returned error or ErrorHandler) is an error other than kOutOfMemory, the refusing call neither reported nor completed (violation "
+        "failure-not-reported-by-the-failing-call); not applied when a request was refused inside a constructor (is_initialized() is the report)",
+        "release calls are checked, not only counted: munmap of a tracked mapping must have the mmap length (page rounded) and return 0, no munmap "
+        "inside a tracked mapping, no second close / unlink / shm_unlink of a descriptor / name asmjit obtained and released in the same case",
+        "W3 additionally compiles: invoke arguments that are immediates (register and stack passed; 64-bit values; x86-32 all on the stack), float / "
+        "double returned by the function itself (x86-32: st0, temporary memory), Win64 by-reference vector arguments (register passed only: a "
+        "by-reference vector argument on the stack is refused with kInvalidAssignment - not a C15 matter), vp2intersectd (k, k+1) and AArch64 "
+        "ld2 / st2 / tbl register lists (consecutive registers); W1r additionally reuses the holder with an x86::Compiler (reinit / reset + init + "
+        "attach under failure, then a function with virtual registers is compiled); W1rst / W1cst / W5sst start their arena in static memory; "
+        "W4large / W4largefill (mmap(MAP_HUGETLB) is served with regular pages by the wrapper: success path) / W4largefb and W9's seventh allocator "
+        "(the real mmap decides: fall-back path) use kUseLargePages | kAlignBlockSizeToLargePage",
         "log text is compared in the retry only: logging is best effort and not part of 'the code'",
         "W9 (objects whose construction met the refused request; W4 likewise for its JitRuntime): JitAllocator x6 CreateParams (default, dual "
         "mapping, pools|fill|immediate release, dual|fill|custom pattern 128K/128, no padding|pools, dual|pools|immediate|no padding 64K/256), "
